@@ -105,7 +105,11 @@ func (tb *ttTable) close() {
 
 func ttTraceID(n int) string { return fmt.Sprintf("t-%03d", n) }
 
-func (tb *ttTable) write(batch []ttSpan, seq int) error {
+func (tb *ttTable) write(batch []ttSpan, seq int) error { return tb.writeSeg(batch, seq, 0) }
+
+// writeSeg adds the batch as a memory part of the given time segment (the coordinator's write queue keeps memory parts of
+// several segments in one table; standalone and data-node tables use segment 0).
+func (tb *ttTable) writeSeg(batch []ttSpan, seq int, seg int64) error {
 	ts := &traces{}
 	durOf := map[int]int64{}
 	var order []int
@@ -133,8 +137,18 @@ func (tb *ttTable) write(batch []ttSpan, seq int) error {
 	if err != nil {
 		return err
 	}
-	tb.tst.mustAddTraces(ts, map[string]*sidx.MemPart{ttSidx: smp})
+	tb.tst.mustAddTracesWithSegmentID(ts, seg, map[string]*sidx.MemPart{ttSidx: smp}, nil)
 	return nil
+}
+
+// mergeMem runs one memory-part merge round of the flusher.
+func (tb *ttTable) mergeMem() (bool, error) {
+	s := tb.tst.currentSnapshot()
+	if s == nil {
+		return false, nil
+	}
+	defer s.decRef()
+	return tb.tst.mergeMemParts(s, tb.mergeCh)
 }
 
 func (tb *ttTable) flushAll() int {
